@@ -325,7 +325,7 @@ class Lexer:
             except IndexError:
                 pass
             else:
-                if char.isdigit():
+                if "0" <= char <= "9":
                     raise UnexpectedCharacter(
                         'Unexpected character "%s"' % char,
                         self._position,
@@ -340,13 +340,13 @@ class Lexer:
         except IndexError:
             raise UnexpectedEOF(self._position, self._source)
 
-        if not (char.isdigit()):
+        if not ("0" <= char <= "9"):
             raise UnexpectedCharacter(
                 'Unexpected character "%s"' % char, self._position, self._source
             )
 
         while True:
-            if char is not None and char.isdigit():
+            if char is not None and "0" <= char <= "9":
                 self._position += 1
                 try:
                     char = self._source[self._position]
@@ -365,7 +365,7 @@ class Lexer:
             except IndexError:
                 break
 
-            if char == "_" or char in __ascii_letters or char.isdigit():
+            if char == "_" or char in __ascii_letters or "0" <= char <= "9":
                 self._position += 1
             else:
                 break
@@ -415,7 +415,7 @@ class Lexer:
             return self._read_block_string()
         elif char == '"':
             return self._read_string()
-        elif char == "-" or char.isdigit():
+        elif char == "-" or "0" <= char <= "9":
             return self._read_number()
         elif char == "_" or char in ascii_letters:
             return self._read_name()
